@@ -151,6 +151,36 @@ theorem from_decimal_error_is_overflow (d : Dec) (decimals : Nat) (e : Err)
     rw [if_neg h1, if_pos h2] at h
     cases h
 
+/-- Decimal → integer with MORE fractional digits than requested, when the excess digits are all
+zero (the value IS representable): the result is exact, no rounding takes place. -/
+theorem from_decimal_down_exact_partial (d : Dec) (decimals : Nat) (hs : decimals < d.scale)
+    (h0 : d.mant ≠ 0) (hdiv : 10 ^ (d.scale - decimals) ∣ d.mant.natAbs) :
+    rescaleToMantissa d decimals =
+      .ok (withSign (decide (d.mant < 0)) (d.mant.natAbs / 10 ^ (d.scale - decimals))) := by
+  unfold rescaleToMantissa rescale
+  rw [if_neg (by omega), if_neg h0]
+  simp only []
+  rw [if_pos (by omega), downLoop_div _ _ 0 (by omega) hdiv]
+  simp only [show ¬ (d.scale - decimals = 0) by omega, if_false,
+    show ¬ ((0 : Nat) ≥ 5) by omega]
+  exact compensate_same_scale _ _
+
+/-- F-C43-round: a Decimal with NON-ZERO excess fractional digits is not representable with the
+requested decimals, yet `decimal_to_*` silently rounds it half away from zero instead of reporting
+an error: 1.5 → 2, 1.49 → 1, −2.5 → −3 at zero decimals. Hence "every successful conversion
+denotes the same value" is false. -/
+theorem excess_digits_rounded_witness :
+    RT.ofN (decimalToAmount ⟨15, 1⟩ 0) = .ok 2 ∧ RT.ofN (decimalToAmount ⟨149, 2⟩ 0) = .ok 1 ∧
+    RT.ofI (decimalToSignedValue ⟨-25, 1⟩ 0) = .ok (-3) ∧
+    ¬ (∀ (d : Dec) (decimals : Nat) (r : Int), d.mant.natAbs < 2 ^ 96 → d.scale ≤ 28 →
+        RT.ofI (rescaleToMantissa d decimals) = .ok r →
+        r * ((10 ^ d.scale : Nat) : Int) = d.mant * ((10 ^ decimals : Nat) : Int)) := by
+  refine ⟨by decide, by decide, by decide, ?_⟩
+  intro h
+  have := h ⟨15, 1⟩ 0 2 (by decide) (by decide) (by decide)
+  revert this
+  decide
+
 /-- No panic, integer → Decimal: `unsigned_fixed_to_decimal` / `signed_fixed_to_decimal` return
 `Some`/`None` for ALL inputs (after the fix of `convert_by_change_the_scale`). -/
 theorem no_panic_fixed_to_decimal (n decimals : Nat) (z : Int) :
